@@ -229,7 +229,8 @@ func (r *GatewayRegistry) upsertDatabaseConfig(ctx context.Context, configGroupI
 
 	newRegistryDatabase := registryDatabaseFromConfig(config)
 	previousRegistryDatabase, ok := configGroup.Databases[config.Name]
-	if ok {
+	// an entry left behind by an interrupted delete is not a previous version to roll back to
+	if ok && !previousRegistryDatabase.IsDeleted() {
 		newRegistryDatabase.PreviousVersion = &RegistryDatabaseVersion{
 			Version: previousRegistryDatabase.Version,
 			Scopes:  previousRegistryDatabase.Scopes,
